@@ -23,7 +23,7 @@ def parse_files(obs, part, prop, replay):
                     # record itself: its block is not the bytes of the exchange (it swallows or loses bytes)
                     part.violation('record-block-not-delimited-by-its-length/' + e.rec_type,
                                    {'file': name, 'error': str(e)[:300], 'config': obs['config']}, replay)
-                else:
+                elif prop != 'C07':
                     part.inconclusive.append('archive unreadable (C05 territory): ' + str(e)[:200])
                 return None
     return out
@@ -259,6 +259,26 @@ def oracle_c07(obs, part, replay):
         return
     files = parse_files(obs, part, 'C07', replay)
     if files is None:
+        # some archive file is not a record sequence as a whole (C05's subject).  C07's own clause can still be decided
+        # line by line: the byte range of a CDX line, taken alone, must be exactly one complete record with the line's id
+        decided = False
+        try:
+            cdx_names = [n for n in obs['files'] if n.endswith('.cdx')]
+            keys, rows = refwarc.read_cdx(obs['files'][cdx_names[0]].decode('utf-8'))
+        except Exception:
+            rows = []
+        for row in rows:
+            try:
+                data = obs['files'][row['g']]
+                off, size = int(row['V']), int(row['S'])
+                sl = refwarc.read_warc(data[off:off + size], row['g'].endswith('.gz'))
+                if len(sl) != 1 or sl[0]['id'] != row.get('u'):
+                    raise refwarc.WarcError('range holds {} records'.format(len(sl)))
+            except (refwarc.WarcError, KeyError, ValueError) as e:
+                decided = True
+                part.violation('cdx-range-is-not-one-complete-record', {'row': row, 'error': str(e)[:200], 'config': cfg}, replay)
+        if not decided:
+            part.inconclusive.append('archive unreadable (C05 territory) and every CDX range parses')
         return
     cdx_names = [n for n in obs['files'] if n.endswith('.cdx')]
     if len(cdx_names) != 1:
@@ -323,7 +343,7 @@ def oracle_c07(obs, part, replay):
         status, mime = refwarc.http_status_and_mime(rec['block'])
         long_header = '/header-over-4KiB' if (refwarc.http_payload_offset(rec['block']) or 0) > 4096 else ''
         head_end = refwarc.http_payload_offset(rec['block']) or len(rec['block'])
-        if any(ln and b':' not in ln and ln[:1] not in b' \t' for ln in re.split(br'\r?\n', rec['block'][:head_end])[1:]):
+        if any(ln and b':' not in ln and ln[:1] not in b' \t' for ln in re.split(br'\r?\n', rec['block'][:head_end].lstrip(b'\r\n'))[1:]):
             long_header += '/colonless-line'
             part.count('cdx_lines_for_headers_with_colonless_line')
         if re.search(br'(?im)^content-type:[ \t]*\r?\n[ \t]', rec['block'][:head_end]):
